@@ -53,7 +53,8 @@ DirValue(val) ==
     [] val.k = "expr" -> Eval(val.e)
     [] val.k = "arr"  -> Eval(val.v)
 DirArg(a) ==
-  IF a.arg # "" THEN Name(a.arg)
+  IF a.arg # "" THEN (IF a.val.k = "arr" /\ a.val.hasArg THEN OneOf(<<Name(a.arg), Eval(a.val.arg)>>)   \* both written: not ranked (6.0)
+                      ELSE Name(a.arg))
   ELSE IF a.val.k = "arr" /\ a.val.hasArg THEN Eval(a.val.arg) ELSE NoArg
 DirMods(a) ==
   IF a.mods # <<>> THEN ModsObj(a.mods)
@@ -220,7 +221,7 @@ SlotsDenote(el, o) ==
   IN
   IF ccs = <<>> THEN (IF HasVSlots(el.attrs) THEN Slots(vs) ELSE Null)
   ELSE IF Len(ccs) = 1 /\ ccs[1].k = "expr" THEN
-       LET e == ccs[1].e IN
+       LET e == Peel(ccs[1].e) IN
        CASE e.k \in {"ident", "call"} ->
               IF o.enableObjectSlots /\ IsSlotValue(Eval(e))
               THEN Slots(AsSlotEntries(Eval(e)))     \* passed through as the slots (v-slots: silent, \S6.0)
